@@ -8,7 +8,8 @@ are used by `run_superstep_sync`.
 Modelling assumptions (each one is an explicit hypothesis of the theorems in `HG/Props/C09.lean`):
 * SHA-256 is collision free: the cache key is the *tuple* `(identity, sorted inputs)` itself
   (`Key`), and the map `hash : Key → Name` into key strings is an abstract parameter whose
-  injectivity is a hypothesis.
+  injectivity is a hypothesis. The inputs that enter the key are the *parameter-level* inputs
+  (`map_inputs_to_params`, `HG.toParams`), not the inputs under the node's current (renamed) names.
 * HMAC-SHA256 with the per-directory secret is an abstract function `H key bytes`; unforgeability and
   collision freedom are hypotheses on histories.
 * `pickle`/`unpickle` are abstract (`Codec`). `pickle` is total: the Python `set` silently skips a
@@ -293,7 +294,19 @@ structure KeyEnv where
 def identOf (env : KeyEnv) (nd : NodeD) : Ident :=
   { defHash := env.defHash nd, cls := className nd.kind, outputs := nd.outputs, targets := nd.targets }
 
-def keyOf (env : KeyEnv) (nd : NodeD) (inputs : AL Val) : Name := env.hash (cacheKey (identOf env nd) inputs)
+/-- `compute_cache_key(node, inputs)` after the rename repair: the inputs (keyed by the node's *current*
+input names) are first mapped back to the function's *original* parameter names
+(`node.map_inputs_to_params(inputs)`, `HG.toParams`), then sorted and hashed together with the identity.
+Two nodes sharing one definition but wired through different renames (`f` and
+`f.with_inputs(x='y', y='x')`) therefore get the same key exactly when the function receives the same
+arguments. -/
+def keyOf (env : KeyEnv) (nd : NodeD) (inputs : AL Val) : Name :=
+  env.hash (cacheKey (identOf env nd) (toParams nd inputs))
+
+/-- the key before the rename repair: computed from the inputs under the node's *current* names. Kept
+for the negative witness `HG.C09.rename_collision_witness`. -/
+def keyOfCurrent (env : KeyEnv) (nd : NodeD) (inputs : AL Val) : Name :=
+  env.hash (cacheKey (identOf env nd) inputs)
 
 /-! ## 4. cached execution of one node -/
 
